@@ -116,6 +116,31 @@ theorem C15gen_error_leaves_state (t : GTranscript) (op : Op) (e : GV.Transcript
   obtain ⟨_, h2, h3⟩ := C15gen_step W H t op hi
   rw [h2]; exact C15_error_leaves_state W H (abs t) op e (by rw [← h3]; exact h)
 
+/-- `Bind` never touches the hasher -/
+theorem C15gen_bind_hasher (t : GTranscript) (n v : Bytes) : (FiatShamir.Bind t n v).1.h = t.h := by
+  simp only [FiatShamir.Bind]
+  (repeat' split) <;> rfl
+
+/-- between calls the hasher is in the Reset state: started with a fresh (Reset) hasher, every history of the generated code
+ends with the hasher Reset (this is what the deferred `t.h.Reset()` is for) -/
+theorem C15gen_hasher_clean (names : List Bytes) (hnd : names.Nodup) (ops : List Op) :
+    (genRun W H (NewTranscript {} names) ops).1.h = {} := by
+  obtain ⟨hi0, _, _, hh0⟩ := C15gen_init {} names hnd
+  suffices h : ∀ t : GTranscript, Inv t → t.h = {} → (genRun W H t ops).1.h = {} from h _ hi0 hh0
+  induction ops with
+  | nil => intro t _ ht; exact ht
+  | cons op ops ih =>
+    intro t hi ht
+    simp only [genRun]
+    apply ih _ (C15gen_step W H t op hi).1
+    cases op with
+    | bind n v => simp only [genStep]; rw [C15gen_bind_hasher, ht]
+    | compute n =>
+      simp only [genStep]
+      rcases (C15gen_compute W H t n hi).2.2.2 with h | h
+      · rw [h, ht]
+      · rw [h]; rfl
+
 /-! non-vacuity: the GENERATED code run on a concrete history over two challenges with a toy stream hash
 (`W = some`, digest = length and first byte of what was absorbed): out-of-order compute refused, binding after compute
 refused, second challenge chained on the first, recompute served from the cache, unknown name -/
